@@ -96,14 +96,20 @@ func NewReverseAnchoredSearcher(forwardNFA *nfa.NFA, config lazy.Config) (*Rever
 //	Forward haystack: "xxxabc"
 //	SearchReverse finds start=3, end=6 (because $ anchor)
 func (s *ReverseAnchoredSearcher) Find(haystack []byte) *Match {
+	start, end, found := s.FindIndices(haystack)
+	if !found {
+		return nil
+	}
+	return NewMatch(start, end, haystack)
+}
+
+// FindIndices is Find without the Match object: it returns (start, end, found)
+// and does not allocate.
+func (s *ReverseAnchoredSearcher) FindIndices(haystack []byte) (int, int, bool) {
 	// For empty strings, use forward PikeVM
 	// Reverse NFA has issues with empty strings and certain alternations
 	if len(haystack) == 0 {
-		start, end, matched := s.forwardPikevm.Search(haystack)
-		if !matched {
-			return nil
-		}
-		return NewMatch(start, end, haystack)
+		return s.forwardPikevm.Search(haystack)
 	}
 
 	// Use SearchReverse to find match START (zero-allocation backward scan)
@@ -112,11 +118,11 @@ func (s *ReverseAnchoredSearcher) Find(haystack []byte) *Match {
 	matchStart := s.reverseDFA.SearchReverse(cache, haystack, 0, len(haystack))
 	s.revCachePool.Put(cache)
 	if matchStart < 0 {
-		return nil
+		return -1, -1, false
 	}
 
 	// For $-anchored patterns, the match always ends at len(haystack)
-	return NewMatch(matchStart, len(haystack), haystack)
+	return matchStart, len(haystack), true
 }
 
 // IsMatch checks if the pattern matches at the end of haystack.
